@@ -154,9 +154,9 @@ func gen(o *kit.Out, r *kit.Rand, tier string) {
 	}
 
 	// ---- 2. structured random
-	n := 25
+	n := 16
 	if thorough {
-		n = 220
+		n = 140
 	}
 	for ci := 0; ci < n; ci++ {
 		c := caseCfg{backend: "mem", wiring: "keyed", aux: kit.Pick(r, []string{"none", "none", "none", "bp", "bpf", "iavl"}), fast: 1}
